@@ -183,6 +183,13 @@ pub const SLOT_NAMES: [&str; SLOTS] = ["a", "b", "c", "d", "e", "f", "g", "h"];
 
 #[cfg(not(kani))]
 pub fn realise(slot: usize, child: Child) -> Expression {
+    if child.effects_answer && child.operand.known {
+        // `{ f() }`: known to be a table, evaluating it calls out
+        return TableExpression::new(vec![TableEntry::from_value(FunctionCall::from_name(
+            SLOT_NAMES[slot],
+        ))])
+        .into();
+    }
     if child.effects_answer {
         // the only leaf-like expression with effects: a call (its value is unknown)
         return FunctionCall::from_name(SLOT_NAMES[slot]).into();
@@ -204,7 +211,9 @@ pub fn realise(slot: usize, child: Child) -> Expression {
 /// Natively a child with effects is realised as a call, whose value the real evaluator does not
 /// know: such a child must have been drawn as unknown for the replay to be faithful.
 pub fn realisable(child: Child) -> bool {
-    !(child.effects_answer && child.operand.known)
+    // a table constructor with a call inside (`{ f() }`) is the one expression whose value the
+    // evaluator knows (a table) although evaluating it has effects
+    !(child.effects_answer && child.operand.known) || matches!(child.operand.actual, V::Table)
 }
 
 fn slot_of(expression: &Expression) -> usize {
